@@ -219,6 +219,8 @@ fn inputs_for<T: Reg>(cx: &mut Cx, n_vals: usize, n_mut: usize) -> Vec<(Vec<u8>,
 
 pub fn run_type<T: Reg>(cx: &mut Cx, name: &str) {
 	let desc = T::desc();
+	// values of more than 8 KB cost the model's evaluator a second each: a couple of cases suffice
+	let heavy = T::min_wire() > 8000;
 	cx.ntypes += 1;
 	if let Some(only) = cx.only.clone() {
 		if only[0] != name {
@@ -258,6 +260,7 @@ pub fn run_type<T: Reg>(cx: &mut Cx, name: &str) {
 	match cx.mode {
 		Mode::C05 => {
 			let n = if t { 60 } else { 12 };
+			let n = if heavy { 2 } else { n };
 			for _ in 0..n {
 				let seed = cx.rng.next();
 				let mut r = Rng::new(seed);
@@ -296,6 +299,7 @@ pub fn run_type<T: Reg>(cx: &mut Cx, name: &str) {
 		},
 		Mode::C01 | Mode::C02 | Mode::C07 => {
 			let n = if t { 150 } else { 14 };
+			let n = if heavy { 2 } else { n };
 			for k in 0..n {
 				let seed = cx.rng.next();
 				let mut r = Rng::new(seed);
@@ -313,6 +317,7 @@ pub fn run_type<T: Reg>(cx: &mut Cx, name: &str) {
 		},
 		Mode::C03 | Mode::C08 | Mode::C14 | Mode::C18 | Mode::C19 => {
 			let (nv, nm) = if t { (30, 12) } else { (5, 6) };
+			let (nv, nm) = if heavy { (1, 1) } else { (nv, nm) };
 			let mut inputs = inputs_for::<T>(cx, nv, nm);
 			if desc.starts_with("(TCompact") && matches!(cx.mode, Mode::C03 | Mode::C18 | Mode::C14) {
 				// the compact grammar: every length tag of the big-integer mode x boundary top bytes,
@@ -372,6 +377,7 @@ pub fn run_type<T: Reg>(cx: &mut Cx, name: &str) {
 		},
 		Mode::C11 => {
 			let (nv, nm) = if t { (20, 4) } else { (4, 2) };
+			let (nv, nm) = if heavy { (1, 1) } else { (nv, nm) };
 			let inputs = inputs_for::<T>(cx, nv, nm);
 			for (inp, fam, v) in inputs {
 				if inp.len() > 40000 || !safe_input::<T>(&inp) {
@@ -382,6 +388,7 @@ pub fn run_type<T: Reg>(cx: &mut Cx, name: &str) {
 		},
 		Mode::C12 => {
 			let (nv, nm) = if t { (20, 4) } else { (4, 2) };
+			let (nv, nm) = if heavy { (1, 1) } else { (nv, nm) };
 			let inputs = inputs_for::<T>(cx, nv, nm);
 			for (inp, fam, v) in inputs {
 				if inp.len() > 40000 || !safe_input::<T>(&inp) {
@@ -392,6 +399,7 @@ pub fn run_type<T: Reg>(cx: &mut Cx, name: &str) {
 		},
 		Mode::C09 => {
 			let (nv, nm) = if t { (20, 10) } else { (4, 5) };
+			let (nv, nm) = if heavy { (1, 1) } else { (nv, nm) };
 			let inputs = inputs_for::<T>(cx, nv, nm);
 			let mut all: Vec<Vec<u8>> = inputs.into_iter().map(|x| x.0).collect();
 			// hostile family: a maximal / near-maximal count in front of 0, 1, about one chunk and
